@@ -75,6 +75,22 @@ def make_items(ctx, only=None):
                 raise C.InfraError('fault-free reference run failed for %s: %s %s' % (iname, ref.klass, (ref.stderr or b'')[-300:]))
             items[iname] = {'name': iname, 'tool': tool, 'dest': dest, 'template': t, 'collect': collect, 'ref': ref,
                             'W': ref.res['simf']['objects'][0]['writes']}
+    # abilint's other output paths: translation-unit and corpus-group documents, and the --stdin variants
+    fx = os.path.join(C.VERIF, 'pool', 'data', 'abixml')
+    for label, doc, extra in (('tu', 'tu-test18.xml', []), ('group', 'group-shapes-tiny.xml', []), ('stdin-corpus', 'fnptr_v0.abi', ['--stdin']),
+                              ('stdin-tu', 'tu-test18.xml', ['--stdin', '--tu'])):
+        iname = 'abilint/stdout/%s' % label
+        if only and iname != only:
+            continue
+        path = os.path.join(fx, doc)
+        if extra:
+            t = {'argv': ['abilint'] + extra, 'stdin': path, 'simf': {'objects': [{'fd': 1}], 'faults': []}}
+        else:
+            t = {'argv': ['abilint', path], 'simf': {'objects': [{'fd': 1}], 'faults': []}}
+        ref = ctx.run('abilint', t)
+        if ref.klass != ('exit', 0) or not ref.stdout:
+            raise C.InfraError('fault-free reference run failed for %s: %s %s' % (iname, ref.klass, (ref.stderr or b'')[-300:]))
+        items[iname] = {'name': iname, 'tool': 'abilint', 'dest': 'stdout', 'template': t, 'collect': None, 'ref': ref, 'W': ref.res['simf']['objects'][0]['writes']}
     return items
 
 
